@@ -326,6 +326,19 @@ def gen_cases(ctx, activation="mixed"):
             desc = shared_conclusions(desc, rng)
         rows = G.gen_rows(rng, desc, ctx.scale(5, 6))
         yield {"engine": desc, "rows": rows, "tag": KNOWN_F3 if has_leak(desc) else "engine"}
+    # families drawn after the main stream (the cases above are unchanged for a seed); mostly `exact` engines: their
+    # exact model is cheap to run.  `chained`: repeated antecedents / rules that read an output term other rules of
+    # the block keep contributing to (G.gen_chained); `saturated`: a fuzzy output that is 1 over the whole range and
+    # still receives contributions, under every S-norm incl. UnboundedSum (G.gen_saturated)
+    for family, n in (("chained", ctx.scale(30, 300)), ("saturated", ctx.scale(30, 300))):
+        for i in range(n):
+            exact = rng.random() < 0.8
+            if family == "chained":
+                desc = G.gen_chained(rng, exact=exact, activation="general" if rng.random() < 0.7 else "mixed")
+            else:
+                desc = G.gen_saturated(rng, exact=exact)
+            rows = G.gen_rows(rng, desc, ctx.scale(5, 6))
+            yield {"engine": desc, "rows": rows, "tag": KNOWN_F3 if has_leak(desc) else "engine", "family": family}
 
 
 TOL = dict(atol=1e-7, rtol=1e-7)
@@ -472,6 +485,8 @@ def correspond(ctx):
     for case, line in zip(cases, outs):
         desc, rows = case["engine"], case["rows"]
         st.count("exact" if desc["exact"] else "general")
+        if case.get("family"):
+            st.count("family:" + case["family"])
         for b in desc["blocks"]:
             st.count("activation:" + b["activation"]["cls"])
         if line in ("bad-op", "bad-parse"):
@@ -496,7 +511,7 @@ def correspond(ctx):
         if len(mism) > 8:
             break
         # property oracle: the documented pipeline (own wiring over the library's leaf functions)
-        if st.evaluations % 3 == 0 or case["tag"] == KNOWN_F3:
+        if st.evaluations % 3 == 0 or case["tag"] == KNOWN_F3 or case.get("family"):
             ok, detail = oracle(case)
             st.count("oracle")
             if not ok:
